@@ -106,6 +106,9 @@ type Case struct {
 	Funcs   string `json:"funcs,omitempty"`   // same | alt | cycle2
 	K       int    `json:"k,omitempty"`
 	Limit   int    `json:"limit,omitempty"`
+	// single (not serialised): run just ONE loop, started by this function;
+	// used to establish that no single loop of the sequence reaches the limit.
+	single string
 	// Ns is set for the constant-stack relation: the iteration counts whose
 	// maximum stack heights were compared.
 	Ns     []int  `json:"ns,omitempty"`
@@ -615,6 +618,9 @@ var funcPatterns = []string{"same", "alt", "cycle2"}
 
 // seqStart names the function that starts loop i.
 func seqStart(c Case, i int) string {
+	if c.single != "" {
+		return c.single
+	}
 	if c.Funcs == "alt" {
 		return fmt.Sprintf("f%d", i%2)
 	}
@@ -642,9 +648,12 @@ func sourceSeq(c Case) string {
 		}
 		fmt.Fprintf(&b, "(defun f%d (n acc) (if (<= n 0) %s %s))\n", k, base, f.String())
 	}
+	if c.single != "" {
+		c.K = 1
+	}
 	call := func(i int) string { return fmt.Sprintf("(%s %d %d)", seqStart(c, i), c.N, i) }
-	pick := fmt.Sprintf("(f0 %d i)", c.N)
-	if c.Funcs == "alt" {
+	pick := fmt.Sprintf("(%s %d i)", seqStart(c, 0), c.N)
+	if c.Funcs == "alt" && c.single == "" {
 		pick = fmt.Sprintf("(if (= (mod i 2) 0) (f0 %d i) (f1 %d i))", c.N, c.N)
 	}
 	switch c.Starter {
@@ -675,6 +684,9 @@ func optsOf(c Case) runOpts {
 		return runOpts{}
 	}
 	ro := runOpts{Limit: c.Limit}
+	if c.single != "" {
+		c.K = 1
+	}
 	if c.Starter == "host-funcall" {
 		for i := 0; i < c.K; i++ {
 			ro.Host = append(ro.Host, hostCall{Fn: seqStart(c, i), Args: []int{c.N, i}})
